@@ -787,6 +787,13 @@ class AcctSim(object):
                     self.violate("filter_emission", "whole-lot imbalance {} of {} is below one lot but a trade of {} was emitted".format(
                         float(p["imb"]), name, got[i]), kind="sublot_emitted")
                 continue
+            if p["imb"] == 0 and emitted and fractional and not p.get("exact"):
+                # the model's imbalance is exactly zero; a trade of rounding-level size (the code's own float residue of
+                # w x NLV / price - position) is no statement about the filter
+                zone = 1e-9 * max(1.0, abs(float(p["target"])))
+                if abs(got[i]) <= zone:
+                    self.probe("c12_dont_care_zone")
+                    continue
             if p["emit"] != emitted:
                 kind = "liquidation_skipped" if p.get("liquidation") else ("emitted_below_threshold" if emitted else "skipped_at_or_above_threshold")
                 self.violate("filter_emission", "{}: imbalance weight {} threshold {} target {}: expected emit={} got {}".format(
